@@ -79,6 +79,17 @@ def unregister(run_id: str) -> None:
 HOOKS: dict[str, Any] = {}
 
 
+#: Additive (C41): when a run id is present, every stream state object that reaches produce/exchange/on_cancel is
+#: kept alive here, so ``state_id`` (= ``id(state)``) values in the invocation log are never reused within the run.
+KEEP_STATES: dict[str, list[Any]] = {}
+
+
+def _keep(state: Any) -> None:
+    bag = KEEP_STATES.get(state.run_id)
+    if bag is not None:
+        bag.append(state)
+
+
 def record(run_id: str, **ev: Any) -> None:
     log = INVOCATIONS.get(run_id)
     hook = HOOKS.get(run_id)
@@ -167,6 +178,7 @@ def init(run_id: str, mid: int, kwargs: dict[str, Any], ctx: Any, state_cls: Any
 
 
 def produce(state: Any, out: Any, ctx: Any) -> None:
+    _keep(state)
     m = SPECS[state.run_id]["methods"][state.mid]
     steps = m["steps"]
     i = state.cursor
@@ -194,6 +206,7 @@ def produce(state: Any, out: Any, ctx: Any) -> None:
 
 
 def exchange(state: Any, inp: Any, out: Any, ctx: Any) -> None:
+    _keep(state)
     m = SPECS[state.run_id]["methods"][state.mid]
     resp = m["responses"]
     i = state.cursor
@@ -235,4 +248,5 @@ def exchange(state: Any, inp: Any, out: Any, ctx: Any) -> None:
 
 
 def on_cancel(state: Any, ctx: Any) -> None:
+    _keep(state)
     record(state.run_id, ev="on_cancel", mid=state.mid, cursor=state.cursor, state_id=id(state))
